@@ -19,3 +19,5 @@ def run(ctx, rep):
     more.rule_options_perm(mod, rep)
     more.rule_meminit_refact(mod, rep)
     more.rule_pivot_found(mod, rep)
+    from ..rules import more3
+    more3.rule_cursor_reset(mod, rep)
